@@ -557,6 +557,23 @@ def attempt_loop():
     return rows
 
 
+def snapshot_shape():
+    """imp.rs: the snapshot taken of an attempt's output for an information request is a copy of the accumulators."""
+    src = re.sub(r"\s+", " ", strip_comments(read("nextest-runner/src/test_command/imp.rs")))
+    m = re.search(r"pub\(crate\) fn snapshot\((&(?:mut )?self)\) -> ChildOutput \{ (.*?) \} pub\(crate\) fn freeze\(self\)", src)
+    if not m: raise RuntimeError("imp.rs: ChildOutputMut::snapshot not found")
+    recv, body = m.group(1), m.group(2)
+    m2 = re.search(r"pub\(crate\) fn snapshot_in_progress\( (&(?:mut )?self), error_description: &'static str, \) -> ChildExecutionOutput \{ (.*?) \} \}", src)
+    if not m2: raise RuntimeError("imp.rs: ChildAccumulator::snapshot_in_progress not found")
+    streams = re.findall(r"(stdout|stderr|output): (\w+)(?:\.as_ref\(\)\.map\(\|x\| x|)\.clone\(\)\.freeze\(\)\.into\(\)\)?,", body)
+    return [
+        ("ChildOutputMut::snapshot borrows the accumulators immutably", recv == "&self"),
+        ("every stream's snapshot (stdout, stderr, combined) is clone().freeze(): a copy", sorted(a for a, _ in streams) == ["output", "stderr", "stdout"] and body.count(".freeze()") == 3),
+        ("nothing is split off, taken, cleared or truncated", not re.search(r"\.split\w*\(|\.take\(|\.clear\(|\.truncate\(|mem::(?:take|replace|swap)", body)),
+        ("ChildAccumulator::snapshot_in_progress borrows immutably and snapshots the output", m2.group(1) == "&self" and "output: self.output.snapshot()," in m2.group(2)),
+    ]
+
+
 def script_sequencing():
     """executor.rs / imp.rs: setup scripts run one at a time, in order, and before any test is queued."""
     ex = re.sub(r"\s+", " ", strip_comments(read("nextest-runner/src/runner/executor.rs")))
@@ -605,7 +622,7 @@ def spawn_setup():
     return rows
 
 
-GROUPS = ["cancel", "mismatch", "exit", "setdef", "escape", "signals", "sighandler", "termchild", "termexit", "delayloop", "drainloop", "drainexit", "drainalways", "verdict", "weights", "retries", "scripts", "spawn", "mainloop", "interval", "placeholders", "xml", "respond", "attemptloop"]
+GROUPS = ["cancel", "mismatch", "exit", "setdef", "escape", "signals", "sighandler", "termchild", "termexit", "delayloop", "drainloop", "drainexit", "drainalways", "verdict", "weights", "retries", "scripts", "spawn", "mainloop", "interval", "placeholders", "xml", "respond", "attemptloop", "snapshot"]
 
 
 def group_lines(g):
@@ -698,6 +715,10 @@ def group_lines(g):
         rows = attempt_loop()
         return ["/-- executor.rs `run_test_instance`: the attempt loop, segment by segment, as written -/",
                 "def attemptLoopShape : List (String × Bool) := [" + ", ".join(f'("{a}", {"true" if b else "false"})' for a, b in rows) + "]"]
+    if g == "snapshot":
+        rows = snapshot_shape()
+        return ["/-- imp.rs: how the snapshot for an information request is taken, as written -/",
+                "def snapshotShape : List (String × Bool) := [" + ", ".join(f'("{a}", {"true" if b else "false"})' for a, b in rows) + "]"]
     if g == "scripts":
         rows = script_sequencing()
         return ["/-- executor.rs / imp.rs: the sequencing of setup scripts, as written -/",
